@@ -108,6 +108,23 @@ pub fn cases(tier: Tier) -> (Vec<Case>, serde_json::Value) {
             }
         }
     }
+    // large circuits: padded sizes 128, 256, 512 (index widths, round counts 7..9)
+    let big: Vec<(Kind, usize, usize)> = match tier {
+        Tier::Quick => vec![(Kind::M, 100, 30)],
+        Tier::Thorough => vec![(Kind::M, 100, 30), (Kind::M, 70, 0), (Kind::APairs, 0, 129), (Kind::M, 255, 2), (Kind::AOdd, 129, 128), (Kind::X, 33, 40)],
+    };
+    for (bi, (k, n1, n2)) in big.into_iter().enumerate() {
+        let nh = (n1 + n2).max(1).next_power_of_two();
+        let p = size_program(k, n1, n2);
+        for (ci, c) in CURVES.iter().enumerate() {
+            if tier == Tier::Quick && ci != bi % 3 {
+                continue;
+            }
+            out.push(Case { curve: c, prog: p.clone(), caps: Some((nh, nh)), class: "size" });
+            out.push(Case { curve: c, prog: p.clone(), caps: Some((nh + 1, 2 * nh)), class: "size" });
+            n_size += 2;
+        }
+    }
     // value runs
     let mut n_val = 0;
     for (ti, (p, k)) in value_templates().into_iter().enumerate() {
